@@ -196,6 +196,8 @@ fn main() {
 	let next_specs = spend_for_fork(&kit, &spendable, kit.blks[tip].height + 1);
 	let next_blk = kit.new_block(tip, 20, &next_specs).ok();
 
+	// a block on top of the tip that spends nothing (coinbase only)
+	let empty_blk = kit.new_block(tip, 3, &[]).ok();
 	// a sibling of the tip with more work (equal height), and a child of it
 	let eq_specs = spend_for_fork(&kit, &spendable, kit.blks[trunk[n - 1]].height + 1);
 	let eq_blk = kit.new_block(trunk[n - 1], 15, &eq_specs).ok();
@@ -210,6 +212,9 @@ fn main() {
 	let mut scenarios = vec![
 		Scenario { name: "plain-extension", pre: trunk[1..n].to_vec(), compact_pre: false, kind: "block", input: Some(trunk[n]), followup: None },
 	];
+	if let Some(e) = empty_blk {
+		scenarios.push(Scenario { name: "coinbase-only-extension", pre: trunk[1..=n].to_vec(), compact_pre: false, kind: "block", input: Some(e), followup: None });
+	}
 	if let Some(f) = fork_blk {
 		scenarios.push(Scenario { name: "fork-block", pre: trunk[1..=n].to_vec(), compact_pre: false, kind: "block", input: Some(f), followup: None });
 	}
